@@ -214,10 +214,127 @@ def cfg_st(draw, flags=("stop", "dry_run"), p_tags=0.6, show_skipped=True):
     return cfg
 
 
+# ---------------------------------------------------------------------------
+# magnitudes: one dimension of a program is blown up beyond what a hand-written test has
+# (two-digit counts / indices, three- and four-digit line numbers, long names)
+# ---------------------------------------------------------------------------
+BIG_DIMS = ["rows", "items", "steps", "features", "tags", "lead", "longname", "examples", "rules", "ruleitems"]
+MANY_TAGS = [u"t%d" % i for i in range(12)]
+
+
+def _outlines_of(feats):
+    for f in feats:
+        for it in f["items"]:
+            for sub in (it["items"] if it["k"] == "r" else [it]):
+                if sub["k"] == "o":
+                    yield sub
+
+
+def _plain_of(feats):
+    for f in feats:
+        for it in f["items"]:
+            for sub in (it["items"] if it["k"] == "r" else [it]):
+                yield sub
+
+
+def _row_for(draw, ex, outcomes):
+    o = draw(outcome_st(outcomes))
+    return [PHRASE[o] if c == "x" else draw(st.sampled_from(TAG_CELLS)) for c in ex["cols"]]
+
+
+def _first_rule_index(items):
+    for i, it in enumerate(items):
+        if it["k"] == "r":
+            return i
+    return len(items)
+
+
 @st.composite
-def program_st(draw, max_features=3, faults=True, cfg=None, peek=True, relog=False, **kw):
+def inflate(draw, feats, dims=None, **kw):
+    """Blow up ONE dimension of the drawn features in place; returns the name of the dimension."""
+    outcomes = kw.get("outcomes") or OUTCOMES
+    skw = {k: v for k, v in kw.items() if k in ("outcomes", "with_async", "with_cleanup", "typed")}
+    fkw = {k: v for k, v in kw.items() if k not in ("max_items", "max_rules", "min_items")}
+    dim = draw(st.sampled_from(dims or BIG_DIMS))
+    n = draw(st.integers(10, 13))
+    if dim in ("rows", "examples"):
+        cands = [o for o in _outlines_of(feats) if o["ex"]]
+        if not cands:
+            dim = "items"
+        else:
+            o = cands[draw(st.integers(0, len(cands) - 1))]
+            if dim == "rows":
+                ex = o["ex"][draw(st.integers(0, len(o["ex"]) - 1))]
+                while len(ex["rows"]) < n:
+                    ex["rows"].append(_row_for(draw, ex, outcomes))
+            else:
+                proto = o["ex"][0]
+                while len(o["ex"]) < n:
+                    ex = {"tags": draw(tags_st(1)), "cols": list(proto["cols"]), "name": u"E%d" % len(o["ex"]),
+                          "rows": []}
+                    ex["rows"] = [_row_for(draw, ex, outcomes) for _ in range(draw(st.integers(0, 2)))]
+                    o["ex"].append(ex)
+    if dim == "steps":
+        cands = list(_plain_of(feats))
+        if not cands:
+            dim = "items"
+        else:
+            it = cands[draw(st.integers(0, len(cands) - 1))]
+            front = draw(st.booleans())
+            while len(it["steps"]) < n:
+                step = {"kw": "Given", "o": "pass"}
+                if front:
+                    it["steps"].insert(0, step)
+                else:
+                    it["steps"].append(step)
+    if dim == "ruleitems":
+        rules = [it for f in feats for it in f["items"] if it["k"] == "r"]
+        if not rules:
+            dim = "rules"
+        else:
+            r = rules[draw(st.integers(0, len(rules) - 1))]
+            while len(r["items"]) < n:
+                r["items"].insert(draw(st.integers(0, len(r["items"]))),
+                                  draw(scenario_st(max_steps=2, min_steps=1, **skw)))
+    if dim == "rules":
+        f = feats[draw(st.integers(0, len(feats) - 1))]
+        while len([it for it in f["items"] if it["k"] == "r"]) < n:
+            f["items"].append({"k": "r", "tags": draw(tags_st(1)),
+                               "items": [draw(scenario_st(max_steps=2, min_steps=1, **skw))
+                                         for _ in range(draw(st.integers(0, 1)) or 1)]})
+    if dim == "items":
+        f = feats[draw(st.integers(0, len(feats) - 1))]
+        while _first_rule_index(f["items"]) < n:
+            f["items"].insert(draw(st.integers(0, _first_rule_index(f["items"]))),
+                              draw(scenario_st(max_steps=2, min_steps=1, **skw)))
+    if dim == "features":
+        while len(feats) < min(n, 11):
+            feats.insert(draw(st.integers(0, len(feats))),
+                         draw(feature_st(max_items=2, max_rules=1, min_items=1, **fkw)))
+    if dim == "tags":
+        els = list(feats) + [it for f in feats for it in f["items"]] + \
+            [sub for f in feats for it in f["items"] if it["k"] == "r" for sub in it["items"]]
+        el = els[draw(st.integers(0, len(els) - 1))]
+        pool = [t for t in (TAGS if el.get("k") == "o" else TAGS_X) if t not in el["tags"]] + MANY_TAGS
+        extra = draw(st.lists(st.sampled_from(pool), min_size=n, max_size=n, unique=True))
+        el["tags"] = (el["tags"] + extra) if draw(st.booleans()) else (extra + el["tags"])
+    if dim == "lead":
+        f = feats[draw(st.integers(0, len(feats) - 1))]
+        f["lead"] = draw(st.sampled_from([95, 99, 120, 990, 998, 1003]))
+    if dim == "longname":
+        els = list(feats) + list(_plain_of(feats))
+        el = els[draw(st.integers(0, len(els) - 1))]
+        el["name"] = u"L%d %s" % (draw(st.integers(0, 99)),
+                                  u" ".join([u"lorem ipsum dolor"] * draw(st.integers(5, 16))))
+    return dim
+
+
+@st.composite
+def program_st(draw, max_features=3, faults=True, cfg=None, peek=True, relog=False, big=True, **kw):
     feats = [draw(feature_st(**kw)) for _ in range(draw(st.integers(1, max_features)))]
     prog = {"features": feats, "cfg": draw(cfg if cfg is not None else cfg_st())}
+    if big and draw(st.integers(0, 15)) == 0:
+        prog["big"] = draw(inflate(feats, **kw))
     if relog and draw(st.integers(0, 4)) == 0:
         # a passing step whose code reconfigures logging (replaces the root logger's handlers for good)
         from .harness import _all_step_lists
